@@ -33,7 +33,8 @@ Definition property (sc : scen) (o : obs) : verdict :=
   (* 2: no call blocks forever: no stuck state was established *)
   let p2 := (o_stuck o =? 0) in
   (* 3: sends that start after the shutdown began are refused *)
-  let p3 := forallb (fun c => c =? 1) (o_late o)
+  (* (late code 5: the call is parked inside SendPacket — it blocks; 6: inconclusive) *)
+  let p3 := forallb (fun c => (c =? 1) || (c =? 6)) (o_late o)
             && (Nat.eqb ncas 0 ||
                 forallb (fun ir => match ir with (i, res) =>
                            forallb (fun r => snd r =? 1) (skipn (begun_before evs i) res) end)
